@@ -66,20 +66,20 @@ _p("C05", "Every request transaction completes exactly once", "exploration",
    "runtime monitor: lock-step conformance of StunAgent with a sequential reference model (admissible-set oracle for simultaneously due transactions), systematic small-scope history enumeration + long random histories + bounded-progress drain",
    _AGENT_RULE,
    "Exactly-once completion, outstanding-ness, duplicate-id refusal, drop of unknown/late responses and absence of ghost events are asserted after every call over ~10^5 enumerated and ~10^3..10^5 random histories; 'completes' is decided in its bounded restatement (drain within a step bound).",
-   "trusted: the reference agent model (DESIGN.md appendix B, harness/src/mon/agent.rs); `now` is monotone in generated histories",
-   exhaustive_note="the small-scope part enumerates every history up to the depth bound over the 15-operation alphabet for both transports; the rest is sampled")
+   "trusted: the reference agent model (DESIGN.md appendix B, harness/src/mon/agent.rs), audited offline by tools/agentcheck.py on a sample of the run's own histories; `now` is monotone in generated histories",
+   agentcheck=True, exhaustive_note="the small-scope part enumerates every history up to the depth bound over the 15-operation alphabet for both transports; the rest is sampled")
 
 _p("C06", "Retransmission timing follows the configured RFC 8489 schedule exactly", "exploration",
    "runtime monitor: due-time arithmetic of a reference model in integer milliseconds checked against every poll reply over virtual time, plus the model-free WaitUntil self-consistency rule; configuration grid, poll-schedule sweep, small-scope enumeration",
    _AGENT_RULE + " C06 emphasis: configurations rto in {1,2,499,500,501,1000,59999,60000,random} x retransmits 0..=8 x last timeout {0,1,8000,60000,random}, 1..=4 overlapping schedules, poll styles exact / 1 ms early / late by 1 ms..hours / half-way / random, reconfiguration and cancel_retransmissions in between; default schedule instants asserted literally.",
    "Every retransmission, timeout and WaitUntil instant of ~10^5..10^7 schedules is compared with the model (exact for ordinary transactions; a window for transactions whose retransmissions were cancelled, whose completion instant the property leaves open).",
-   "trusted: reference agent model; durations are whole milliseconds (the API truncates sub-millisecond parts)")
+   "trusted: reference agent model (audited offline by tools/agentcheck.py); durations are whole milliseconds (the API truncates sub-millisecond parts)", agentcheck=True)
 
 _p("C07", "Responses to authenticated requests are accepted only with valid integrity", "exploration",
    "runtime monitor: the delivery decision of every response is predicted by an independent integrity validator inside the reference agent model; timing and later completion after a drop checked by the same model",
    _AGENT_RULE + " C07 emphasis: authentication alphabet (sealed/unsealed requests, 8 response kinds, credentials set/unset/changed mid-transaction) enumerated to the depth bound with remote credentials initially unset and set; forged responses injected at every point of the schedule.",
    "deliver iff not sealed or (remote credentials present and the response validates under them, by the harness's own HMAC); where the integrity attributes of a response are only partly valid either reply is admitted. Unchanged timing after a drop is checked by the C06 arithmetic.",
-   "trusted: reference agent model + reference HMAC")
+   "trusted: reference agent model + reference HMAC (both audited offline by tools/agentcheck.py with hashlib/hmac)", agentcheck=True)
 
 _p("C08", "Each built-in attribute decodes exactly the RFC encodings and round-trips", "exploration",
    "runtime monitor: 19 typed decoders/encoders compared with reference codecs written from RFC 8489 s14 / RFC 8445; length sweeps, exhaustive small domains, random structured values",
@@ -128,7 +128,7 @@ _p("C15", "A peer is validated only by a STUN message accepted from it, and stay
    "runtime monitor: is_validated_peer for the whole address universe compared with the reference model's set after every call of every agent history",
    _AGENT_RULE + " C15 emphasis: sources drawn from 5 addresses (IPv4/IPv6, same IP with another port) plus two addresses never handed to the agent.",
    "The validated set must equal the model's (grows exactly on IncomingStun and on delivered responses) after every one of ~10^6..10^8 calls: monotonicity, no validation on send or drop, no cross-address leakage.",
-   "trusted: reference agent model")
+   "trusted: reference agent model (audited offline by tools/agentcheck.py)", agentcheck=True)
 
 _p("C16", "Attribute policing returns exactly the RFC 8489 s6.3.1 verdict", "exploration",
    "runtime monitor: check_attribute_types compared with reference policing over the reference exposure for all supported/required subsets; generated responses re-parsed by the reference decoder; comprehension_required exhaustively",
@@ -146,7 +146,7 @@ _p("C18", "Every transmission is the unmodified request, addressed as asked", "e
    "runtime monitor: every Transmit returned by send and poll compared byte-for-byte and address-for-address with what the reference model recorded at send time; peer_address observed after every call",
    _AGENT_RULE + " C18 emphasis: message contents vary in method, attributes, length (0..1400-byte payload attribute), sealing and FINGERPRINT; several concurrent requests carry different payloads so that a mix-up between transactions is visible.",
    "Byte equality of the initial transmission with the builder's own build() output and of every retransmission with that same record; from/to/transport; non-requests leave no transaction.",
-   "trusted: reference agent model; the bytes compared against are the builder's own serialisation taken before the message is handed over")
+   "trusted: reference agent model (audited offline by tools/agentcheck.py); the bytes compared against are the builder's own serialisation taken before the message is handed over", agentcheck=True)
 
 _p("C20", "The agent is a pure function of its inputs (sans-IO)", "exploration",
    "runtime monitor: clock reads trapped by symbol interposition (clock_gettime/gettimeofday/time defined in the harness binary) around every agent call; normalised reply logs compared between a base run and shifted / second-instance / noisy / threaded replays; Miri data-race detection in the thorough tier",
